@@ -164,7 +164,7 @@ func checkC09(p *Prog, r *Report) {
 
 // evalLess evaluates Less with one rule for values of type t.
 func evalLess(p *Prog, less *ssa.Function, t types.Type, ord int, anil, bnil, inverse, idRule bool) ([]string, string) {
-	in := &interp{p: p, f: less, maxPaths: 400}
+	in := &interp{p: p, f: less, maxPaths: 400, inline: smallHelper}
 	elem := t
 	if pt, ok := t.Underlying().(*types.Pointer); ok {
 		elem = pt.Elem()
